@@ -20,6 +20,7 @@ VERIF = os.path.dirname(os.path.dirname(os.path.abspath(__file__)))
 if VERIF not in sys.path:
     sys.path.insert(0, VERIF)
 
+from sim import gen as gen_mod  # noqa: E402
 from sim.pool import Pool  # noqa: E402
 
 NPROC = int(os.environ.get("VERIF_NPROC", "16"))
@@ -348,7 +349,7 @@ def run_check(mod, tier: str, seed: int, args) -> int:
             # properties whose unit of work is not a single run (e.g. C13 pairs)
             mod.run_batch(sess, n_runs, t0 + wall_cap, results, status_counts, groups, harness_errors)
         else:
-            tasks = ({"task_id": i, "desc": mod.gen_desc(seed, i, tier), "timeout": budget.get("timeout", 120)} for i in range(n_runs))
+            tasks = ({"task_id": i, "desc": gen_mod.deepen(mod.gen_desc(seed, i, tier), tier), "timeout": budget.get("timeout", 120)} for i in range(n_runs))
 
             def on_result(task: dict, res: dict) -> None:
                 status_counts[res.get("status", "?")] += 1
@@ -534,7 +535,7 @@ def main(argv=None) -> int:
     if args.show is not None:
         sess = Session(mod, args.tier, args.seed)
         try:
-            desc = mod.gen_desc(args.seed, args.show, args.tier)
+            desc = gen_mod.deepen(mod.gen_desc(args.seed, args.show, args.tier), args.tier)
             res = sess.one(desc, want=("events", "wire", "trace"), fresh=True)
             ev = res.pop("events", [])
             wire = res.pop("wire", [])
